@@ -18,4 +18,7 @@ rm $dir/zz_seeded_demo_test.go
 suite=$(go test -vet=off -count=1 . ./j2x ./x2j ./x2j-wrapper 2>&1 | grep -c '^ok')
 cp $demo $dir/zz_seeded_demo_test.go
 withp=$(go test -vet=off -count=1 -run "^${tname}\$" ./$dir 2>&1 | grep -E '^(ok|FAIL|---)' | head -1 | cut -c1-60)
+case "$withp" in ok*) # a pure data race shows only under the race detector
+  withp=$(go test -race -vet=off -count=1 -run "^${tname}\$" ./$dir 2>&1 | grep -E '^(ok|FAIL|---)' | head -1 | cut -c1-60); [ -n "$withp" ] && withp="(with -race) $withp";;
+esac
 echo "$id$k demo-clean=[$base] suite-ok-pkgs=$suite demo-patched=[$withp]"
